@@ -43,6 +43,7 @@ NamesOf(k, noise, i) ==
                   [] k = "retsplit"  -> <<N("Z", i)>>      \* `return` and its operand come from two Render calls
                   [] k = "skipref"   -> <<N("SK", i)>>     \* rendered by the generator for the package's SECOND type, which then returns ErrSkip:
                                                            \* what was rendered stays rendered (and what it refers to stays imported)
+                  [] k = "initfn"    -> <<"init">>          \* func init: a file may declare any number of them, each one stays
                   [] k = "oddcomment" -> <<N("L", i)>>     \* a comment in a place where go/printer needs a second pass to settle
     IN IF noise = "two_on_one" /\ k \notin {"rawsplit", "retsplit", "skipref"} THEN base \o <<N("X", i)>> ELSE base      \* (the split kinds carry no noise)
 
@@ -72,6 +73,6 @@ EmitCase == frags # <<>> =>
                                        mode |-> mode, module |-> module]])>>)
 
 (* Loop A (design sanity): the import set is monotone in the fragments, names are pairwise distinct *)
-DesignDistinctNames == LET ns == ExpNames(frags, 1) IN \A i, j \in 1..Len(ns) : i # j => ns[i] # ns[j]
+DesignDistinctNames == LET ns == ExpNames(frags, 1) IN \A i, j \in 1..Len(ns) : (i # j /\ ns[i] # "init") => ns[i] # ns[j]
 DesignImportsOnlyFromCarriers == ExpImports(frags, mode) \subseteq {Std, Clash, Versioned, Renamed}
 =============================================================================
